@@ -89,7 +89,8 @@ Record gcentry := mkG { g_len : N; g_bytes : N; g_disk : N }.
 Definition gzero : gcentry := mkG 0 0 0.
 Definition gadd (a b : gcentry) : gcentry :=
   mkG (g_len a + g_len b) (g_bytes a + g_bytes b) (g_disk a + g_disk b).
-(** version/mod.rs: with_dropped, the [and_modify] closure: bytes and len only *)
+(** version/mod.rs: with_dropped as shipped in 3.1.9, the [and_modify] closure: bytes and
+    len only (see [add_linked_old]) *)
 Definition gadd_nodisk (a b : gcentry) : gcentry :=
   mkG (g_len a + g_len b) (g_bytes a + g_bytes b) (g_disk a).
 
@@ -484,17 +485,29 @@ Fixpoint relocate_scan (target : N) (rw : list N) (scan : list (N * frame)) (w :
   end.
 
 (** * Dropping tables (worker.rs: drop_tables, version/mod.rs: with_dropped,
-      blob_file_list.rs: prune_dead).  The statistics are NOT pruned here. *)
+      blob_file_list.rs: prune_dead).  The statistics are NOT pruned here
+      (tests/blob_nuke_gc_stats.rs asserts the entry of the removed file). *)
+
+(** the dropped table's LinkedFile records are added to the statistics:
+    entry(id).and_modify(bytes, on_disk_bytes, len +=).or_insert(record) *)
 Definition add_linked (m : gcmap) (ents : list entry) : gcmap :=
+  fold_left (fun acc kx => gc_add acc (fst kx) (snd kx)) (linked_of ents) m.
+(** as shipped in 3.1.9 (before the repair of finding F6): the [and_modify] closure forgot
+    [on_disk_bytes].  Kept only for [blob_drop_tables_old_inv_refuted]. *)
+Definition add_linked_old (m : gcmap) (ents : list entry) : gcmap :=
   fold_left (fun acc kx => gc_add_nodisk acc (fst kx) (snd kx)) (linked_of ents) m.
 
-Definition blob_drop_tables (tids : list N) (v : bversion) : bversion :=
+Definition drop_tables_with (al : gcmap -> list entry -> gcmap) (tids : list N) (v : bversion)
+  : bversion :=
   if negb (tids_known tids v) then v else
   let dropped := sel_tables tids (b_tables v) in
   if is_nil dropped then v else
-  let gc := fold_left (fun acc t => add_linked acc (snd t)) dropped (b_gc v) in
+  let gc := fold_left (fun acc t => al acc (snd t)) dropped (b_gc v) in
   let blobs := filter (fun bf => negb (is_dead gc bf)) (b_blobs v) in
   mkBV (rest_tables tids (b_tables v)) blobs gc.
+
+Definition blob_drop_tables := drop_tables_with add_linked.
+Definition blob_drop_tables_old := drop_tables_with add_linked_old.
 
 (** * Compaction filter with key-value separation (compaction/filter.rs) *)
 Inductive uverdict := UKeep | URemove | URemoveWeak | UReplace (v : list N) | UDestroy.
@@ -549,13 +562,22 @@ Definition blob_merge_filter (W : N) (evict : bool) (uf : entry -> uverdict)
   let '(extra, nid') := match ow with Some w => bw_finish w | None => ([], nid) end in
   (with_merge v tids (split out') (gc_of_log log) extra (dead_ids v), nid').
 
-(** * Reopen (blob_tree/mod.rs: BlobTree::open): tables, files and statistics come back as
-      persisted; the id counter restarts above the highest file id of the version *)
+(** * Reopen
+    blob_tree/mod.rs: BlobTree::open restarts the id counter above the highest file id of
+    the recovered version *)
 Definition reopen_counter (v : bversion) : N :=
   match b_blobs v with
   | [] => 0
   | _ => fold_right N.max 0 (map bf_id (b_blobs v)) + 1
   end.
+
+(** version/recovery.rs: recover -- tables, files and statistics come back as persisted,
+    except that statistics of blob files the version does not list are discarded
+    ([gc_stats.retain(|id, _| listed)], the repair of finding F5).  Result: (version, counter).
+    The recovery of 3.1.9 kept the map as it was: [(v, reopen_counter v)]. *)
+Definition blob_reopen (v : bversion) : bversion * N :=
+  (mkBV (b_tables v) (b_blobs v) (gc_prune (b_gc v) (b_blobs v)), reopen_counter v).
+Definition blob_reopen_old (v : bversion) : bversion * N := (v, reopen_counter v).
 
 (** * A concrete table splitter for examples: table ids [ids], cut after [cuts] entries *)
 Fixpoint split_cuts (ids : list N) (cuts : list nat) (l : list entry) : list (N * list entry) :=
